@@ -129,8 +129,27 @@ def _goal_value(goal, st):
     return v
 
 
+def _is_tail(goal):
+    return isinstance(goal, dict)
+
+
 def _goal_text(goal):
     return "*".join(f"{n}**{k}" if k != 1 else n for n, k in goal)
+
+
+def _cli_goal(goal):
+    """goal string as given on the command line"""
+    if _is_tail(goal):
+        v, op, a = goal["tail"]
+        return f"P({v}>={a})<=?" if op == ">=" else f"P({v}>{a})>=?"
+    return f"E({_goal_text(goal)})"
+
+
+def _tail_value(goal, st):
+    from fractions import Fraction
+    v, op, a = goal["tail"]
+    x = st[v]
+    return Fraction(1 if (x >= Fraction(a) if op == ">=" else x > Fraction(a)) else 0)
 
 
 def _close(p, r, scale):
@@ -248,7 +267,7 @@ def _run_case(case):
                 printed, result = _run_action(text, goals, iters, samples)
             else:
                 with redirect_stderr(io.StringIO()):
-                    result = Simulator(iters).simulate(program, [_goal_text(g) for g in goals], samples)
+                    result = Simulator(iters).simulate(program, [_goal_text(g) for g in goals if not _is_tail(g)], samples)
         except rngseam.NoController:
             raise
         except Exception as e:  # noqa
@@ -320,6 +339,8 @@ def _run_case(case):
                     problems.append({"kind": "extra-variable", "sample": si, "iteration": it, "var": name})
             # -- oracle 4a: goal columns
             for g in goals:
+                if _is_tail(g):
+                    continue
                 gt = _goal_text(g)
                 pv = None
                 for k, v in sp.items():
@@ -342,6 +363,8 @@ def _run_case(case):
         except Exception as e:  # noqa
             problems.append({"kind": "mean-error", "error": repr(e)[:200]})
         for g in goals:
+            if _is_tail(g):
+                continue
             ref_mean = sum(float(_goal_value(g, run[-1])) for run in runs_ref) / len(runs_ref)
             pm = None
             for k, v in means.items():
@@ -350,7 +373,13 @@ def _run_case(case):
             if pm is None or not _close(pm, ref_mean, scale ** sum(k for _, k in g)):
                 problems.append({"kind": "mean", "goal": _goal_text(g), "polar": pm, "ref": ref_mean})
         if printed is not None:
+            want = [sum(float(_tail_value(g, run[-1])) for run in runs_ref) / len(runs_ref) for g in goals if _is_tail(g)]
+            got = printed.get("__tails__", [])
+            if len(want) != len(got) or any(abs(a - b) > 1e-9 for a, b in zip(want, got)):
+                problems.append({"kind": "printed-tail-probability", "polar": got, "ref": want})
             for g in goals:
+                if _is_tail(g):
+                    continue
                 ref_mean = sum(float(_goal_value(g, run[-1])) for run in runs_ref) / len(runs_ref)
                 pm = printed.get(_canon_monomial_from_goal(g))
                 if pm is None or not _close(pm, ref_mean, scale ** sum(k for _, k in g)):
@@ -425,7 +454,7 @@ def make_shared_action(goals, iters, samples):
     global SHARED_ACTION
     from cli.actions import ActionFactory
     from .sessions import full_namespace
-    ns = full_namespace(simulate=True, goals=[f"E({_goal_text(g)})" for g in goals], simulation_iter=iters, number_samples=samples)
+    ns = full_namespace(simulate=True, goals=[_cli_goal(g) for g in goals], simulation_iter=iters, number_samples=samples)
     SHARED_ACTION = ActionFactory.create_action(ns)
 
 
@@ -447,7 +476,7 @@ def _run_action(text, goals, iters, samples):
     path = os.path.join(d, "prog.prob")
     with open(path, "w") as f:
         f.write(text)
-    args = Namespace(goals=[f"E({_goal_text(g)})" for g in goals], simulation_iter=iters, number_samples=samples)
+    args = Namespace(goals=[_cli_goal(g) for g in goals], simulation_iter=iters, number_samples=samples)
     buf = io.StringIO()
     simmod.Simulator.simulate = spy
     try:
@@ -461,10 +490,17 @@ def _run_action(text, goals, iters, samples):
         except OSError:
             pass
     printed = {}
+    tails = []
     seen_result = False
     for line in buf.getvalue().splitlines():
         if "Simulation Result" in line:
             seen_result = True
+            continue
+        if seen_result and line.startswith("P(") and " = " in line:
+            try:
+                tails.append(float(line.rsplit(" = ", 1)[1]))
+            except ValueError:
+                tails.append(float("nan"))
             continue
         if seen_result and " = " in line:
             lhs, rhs = line.split(" = ", 1)
@@ -475,6 +511,7 @@ def _run_action(text, goals, iters, samples):
                 printed[_canon_monomial(lhs)] = float(rhs)
             except ValueError:
                 pass
+    printed["__tails__"] = tails
     return printed, captured.get("result")
 
 
